@@ -20,6 +20,7 @@
 #include <errno.h>
 #include <sys/uio.h>
 #include "types.h"
+#include "values.h"
 #include "convert.h"
 #include "meta.h"
 #include "object.h"
@@ -70,6 +71,15 @@ static int parse_int(const char *s, long *v)
 	*v = strtol(s, &e, 10);
 	return *e ? -1 : 0;
 }
+/* description objects by id, as first handed out: typed buffers keep these pointers and the library decides type identity by
+ * comparing them, so an id has to keep resolving to the same object */
+static const void *seen_obj[SWEEP_MAX + 2], *seen_named[SWEEP_MAX + 2];
+static int note_obj(const void **tab, long id, const void *t)
+{
+	if (id < 0 || id > SWEEP_MAX || !t) return 0;
+	if (!tab[id]) { tab[id] = t; return 0; }
+	return tab[id] != t;
+}
 static void put_traits(const MPT_STRUCT(type_traits) *t)
 {
 	if (!t) { fputs("none", stdout); return; }
@@ -82,7 +92,9 @@ static void put_add(long id, long lo, long hi)
 	int fresh = id <= SWEEP_MAX ? !issued[id] : 1;
 	if (id <= SWEEP_MAX) issued[id] = 1;
 	printf("R ok fresh=%s range=%s ", fresh ? "yes" : "no", (id >= lo && id <= hi) ? "yes" : "no");
-	put_traits(mpt_type_traits((mpt_type_t) id));
+	const MPT_STRUCT(type_traits) *t = mpt_type_traits((mpt_type_t) id);
+	put_traits(t);
+	if (note_obj(seen_obj, id, t)) printf(" MOVED");
 	printf(" | C id=%ld | I -\n", id);
 }
 static void put_named_add(const MPT_STRUCT(named_traits) *nt, long lo, long hi)
@@ -95,6 +107,7 @@ static void put_named_add(const MPT_STRUCT(named_traits) *nt, long lo, long hi)
 	put_name(nt->name);
 	printf(" ");
 	put_traits(nt->traits);
+	if (note_obj(seen_named, id, nt) | note_obj(seen_obj, id, nt->traits)) printf(" MOVED");
 	printf(" | C id=%ld | I -\n", id);
 }
 static void put_named(const MPT_STRUCT(named_traits) *nt)
@@ -123,12 +136,13 @@ static void put_run(long a, long b, const struct attr *at, int *first)
 static void op_sweep(void)
 {
 	struct attr run = { 0, 0, 0, 0 }, cur;
-	long start = 0;
-	int first = 1;
+	long start = 0, moved[8];
+	int first = 1, nmoved = 0;
 	printf("R traits=");
 	for (long id = 0; id <= SWEEP_MAX + 1; id++) {
 		const MPT_STRUCT(type_traits) *t = id <= SWEEP_MAX ? mpt_type_traits((mpt_type_t) id) : 0;
 		cur.have = t != 0; cur.size = t ? t->size : 0; cur.init = t && t->init; cur.fini = t && t->fini;
+		if (note_obj(seen_obj, id, t) && nmoved < 8) moved[nmoved++] = id;
 		if (id == 0 || !attr_eq(&cur, &run)) {
 			if (id) put_run(start, id - 1, &run, &first);
 			run = cur; start = id;
@@ -148,8 +162,13 @@ static void op_sweep(void)
 		put_name(nt->name);
 		if ((long) nt->type != id) printf("!type=%ld", (long) nt->type);
 		if (nt->traits != mpt_type_traits((mpt_type_t) id)) printf("!traits");
+		if (note_obj(seen_named, id, nt) && nmoved < 8) moved[nmoved++] = id;
 	}
 	if (first) fputc('-', stdout);
+	/* ids whose description object is not the one handed out first (at most 8 listed) */
+	printf(" moved=");
+	if (!nmoved) fputc('-', stdout);
+	for (int i = 0; i < nmoved; i++) printf("%s%ld", i ? "," : "", moved[i]);
 	printf(" | C - | I -\n");
 }
 
@@ -252,7 +271,9 @@ int main(void)
 		else if (!strcmp(op, "traits") && drv_nw == 3) {
 			if (parse_int(drv_w[2], &a) || a < 0) { puts("bad-op"); continue; }
 			printf("R ");
-			put_traits(mpt_type_traits((mpt_type_t) a));
+			const MPT_STRUCT(type_traits) *tt = mpt_type_traits((mpt_type_t) a);
+			put_traits(tt);
+			if (note_obj(seen_obj, a, tt)) printf(" MOVED");
 			printf(" | C - | I -\n");
 		}
 		else if ((!strcmp(op, "itraits") || !strcmp(op, "mtraits")) && drv_nw == 3) {
@@ -294,6 +315,21 @@ int main(void)
 			printf("R size=%zu | C - | I -\n", mpt_msgvalfmt_size((uint8_t) a));
 		}
 		else if (!strcmp(op, "sweep") && drv_nw == 2) op_sweep();
+		else if (!strcmp(op, "rawdata") && drv_nw == 2) {
+			/* the "get or register" helper of mptplot for the interface "mpt.rawdata" */
+			static const MPT_STRUCT(named_traits) *prev;
+			errno = 0;
+			const MPT_STRUCT(named_traits) *nt = mpt_rawdata_type_traits();
+			if (nt && prev) {
+				printf("R ok fresh=%s range=yes name=", nt == prev ? "same" : "OTHER");
+				put_name(nt->name);
+				printf(" ");
+				put_traits(nt->traits);
+				printf(" | C id=%ld | I -\n", (long) nt->type);
+			}
+			else put_named_add(nt, MPT_ENUM(_TypeInterfaceAdd), MPT_ENUM(_TypeInterfaceMax));
+			if (nt) prev = nt;
+		}
 		else if (!strcmp(op, "size") && drv_nw == 3) {
 			if (parse_int(drv_w[2], &a) || a < 0) { puts("bad-op"); continue; }
 			op_size(a);
